@@ -2,5 +2,6 @@ SPECIFICATION Spec
 CONSTANTS
   Versions <- VersionsAll
   MaxFaults = 1
-INVARIANTS TypeOK PExact POneBad POthers PRequired PStrict Emit
+  SourceVersions <- SourceVersionsQuick
+INVARIANTS TypeOK PExact PSources POneBad POthers PRequired PStrict Emit
 CHECK_DEADLOCK FALSE
